@@ -37,7 +37,9 @@
 (* labelled transitions (EmitFix) and the constant tables TARGETS and COX. *)
 (* Configurations: INIT InitFix NEXT NextFix INVARIANTS FixLaws FarLaws    *)
 (* FormPreserved Normalised ObsFix, or INIT InitWall NEXT NextWall         *)
-(* INVARIANTS WallLaws ObsWall; VIEW ViewFix, ACTION_CONSTRAINT EmitFix.   *)
+(* INVARIANTS WallLaws ObsWall, or INIT InitLox NEXT NextLox INVARIANTS    *)
+(* LoxWordLaws FormPreserved Normalised ObsFix; VIEW ViewFix,              *)
+(* ACTION_CONSTRAINT EmitFix.                                              *)
 (***************************************************************************)
 EXTENDS HypIso
 
@@ -308,9 +310,37 @@ FarObs == [g |-> g, kind |-> kind, len |-> len, tame |-> TRUE, far |-> wall, siz
 ObsFix == PrintT("OBS " \o ToJson(IF Far THEN FarObs ELSE FixObs))
 \* far states: the origin really is far (Klein radius^2 >= 0.99), the endpoints are distinct; the eigen-equations
 \* are evaluated by FixLaws whenever they fit
-FarLaws == Far => /\ exact /\ MaxAbs(g[1]) <= 100000000
+FarLaws == (Far /\ wall[1] # 0) =>
+                  /\ exact /\ MaxAbs(g[1]) <= 100000000
                   /\ LET o == Act(g, E1) IN MaxAbsV(o) <= 30000 => 100 * (0 - MNorm(o)) <= o[1] * o[1]
                   /\ Act(g, Ap) # Act(g, Am)
+
+(***************************************************************************)
+(* (C) the LOXODROMIC-WORD machine (InitLox / NextLox): many non-normal    *)
+(* loxodromics g L g^-1 in dimension >= 3, where the eigenvalue 1 of L is  *)
+(* repeated.  The conjugators are ALL words of length <= MaxLen over nine  *)
+(* letters (reflections, a rotation, translations, a coordinate cycle, a   *)
+(* rotation of the last coordinates) with at most one far translation      *)
+(* (length ln 20) anywhere in the word; only the loxodromic data of a      *)
+(* state is specified (FarObs), `wall` is the mode marker <<0>> / <<0, 1>> *)
+(* (far letter used).  LoxWordLaws: the eigen-equations of FixLaws.        *)
+(***************************************************************************)
+LoxAtoms == {a \in ExactAtoms :
+               IF a.k = "refl" THEN a.v \in {Pad(<<1, 1, 1, 1>>), Pad(<<1, 0, 0 - 2>>), Pad(<<0, 1, 0, 2>>), Pad(<<1, 2>>)}
+               ELSE IF a.k = "rot" THEN a.c = 5 /\ a.a = 3
+               ELSE IF a.k = "lox" THEN a.q = 1
+               ELSE IF a.k = "perm" THEN a.s = Cycle
+               ELSE TRUE}
+InitLox == Init /\ wall = <<0>>
+LoxFar == /\ wall = <<0>> /\ len < MaxLen
+          /\ g' = Mul(Lox(20, 1), g) /\ wall' = <<0, 1>> /\ len' = len + 1 /\ UNCHANGED kind
+          /\ last' = [a |-> "left", atom |-> [k |-> "lox", p |-> 20, q |-> 1]]
+NextLox == \/ (\E a \in LoxAtoms : Left(a)) /\ UNCHANGED wall
+           \/ LoxFar
+LoxWordLaws == /\ exact /\ MaxAbs(g[1]) <= 100000000 /\ Act(g, Ap) # Act(g, Am)
+               /\ LawState => LET gi == [x \in Probe |-> Img(g, x)]
+                                  pb == Dim * MaxAbs(g[1]) * 5
+                              IN \A t \in LoxParams : LoxLaw(t, gi, pb)
 
 (***************************************************************************)
 (* Composite isometries handed to from_reflection: a stack is accepted iff *)
